@@ -50,9 +50,10 @@ func isOriginAllowed(origin string, allowOrigins []string) (string, bool) {
 				return origin, true
 			}
 
-			if strings.Contains(allowedURL.Host, "*") {
-				pattern := strings.ReplaceAll(allowedURL.Host, "*.", "(.*\\.)?")
-				pattern = strings.ReplaceAll(pattern, "*", ".*")
+			if allowedURL.Scheme == originURL.Scheme &&
+				strings.Contains(allowedURL.Host, "*") {
+				pattern := strings.ReplaceAll(regexp.QuoteMeta(allowedURL.Host), "\\*\\.", "(.*\\.)?")
+				pattern = strings.ReplaceAll(pattern, "\\*", ".*")
 				matched, errMatched := regexp.MatchString("^"+pattern+"$", originURL.Host)
 				if errMatched == nil && matched {
 					return origin, true
